@@ -231,18 +231,31 @@ def run(chk):
         if k not in seen:
             seen.add(k)
             uniq.append(d)
+    # two-field definitions are stratified by the pair of field classes (attribute, type class, length style, cardinality): the
+    # interactions the macro has to get right are between classes, the encodings and widths inside a class are sampled
+    def fclass(f):
+        t = f["ty"]
+        return (f["attr"], t if t.startswith("N") else ("str" if t == "String" else "int"), f["len"], f["card"])
+
+    def nested(d):
+        return any(f["ty"].startswith("N") for f in d["fields"])
+    by_class = {}
+    for d in two:
+        by_class.setdefault((fclass(d["fields"][0]), fclass(d["fields"][1])), []).append(d)
+    classes = sorted(by_class)
     batches = []
     if thorough:
-        pool = one + rnd.sample(two, 4000) + uniq[:800]
+        pool = one + [rnd.choice(by_class[c]) for c in classes] + rnd.sample(two, 1500) + uniq[:800]
         for i in range(0, len(pool), 600):
             batches.append(pool[i:i + 600])
     else:
-        # stratified: every one-field definition over a nested struct (they carry the absent-value and required-tag cases), a sample
-        # of the others; two-field definitions half from those with a nested field, half from the rest
-        def nested(d):
-            return any(f["ty"].startswith("N") for f in d["fields"])
+        # every one-field definition over a nested struct (they carry the absent-value and required-tag cases) and a sample of the
+        # others; every class of field behind an un-delimited nested struct (the nested decoder runs into the bytes of its parent);
+        # a seeded sample of the other class pairs; some larger definitions
+        undel = [c for c in classes if c[0] == ("pos", "N2", "Empty", "req")]
+        rest = [c for c in classes if c not in set(undel)]
         batches.append([d for d in one if nested(d)] + rnd.sample([d for d in one if not nested(d)], 90)
-                       + rnd.sample([d for d in two if nested(d)], 60) + rnd.sample([d for d in two if not nested(d)], 90) + uniq[:40])
+                       + [rnd.choice(by_class[c]) for c in undel] + [rnd.choice(by_class[c]) for c in rnd.sample(rest, 130)] + uniq[:40])
     total_structs = 0
     total_cases = 0
     canon = 0
@@ -310,7 +323,7 @@ def run(chk):
     chk.cov["evaluations"] = total_cases
     chk.cov["distinct_nontrivial"] = canon
     chk.cov["definitions_enumerated"] = len(defs)
-    chk.cov["rule"] = ("programs = generated struct definitions compiled with the working tree's derive macro: a seeded sample of the %d well-formed "
+    chk.cov["rule"] = ("programs = generated struct definitions compiled with the working tree's derive macro: a class-stratified seeded sample (thorough: one definition per pair of field classes) of the %d well-formed "
                        "1- and 2-field definitions TLC enumerates (all pairs of field variants: positional / BMP / TLV x integer widths x LE / BE / BCD / "
                        "text / hex / UTF-8 x no length / fixed / LLVAR / LLLVAR / TLV x mandatory / optional / repeated x nested structs), plus larger "
                        "definitions from TLC's simulator; every third struct also carries a control field. For each struct the reference codec "
